@@ -256,7 +256,9 @@ pub fn backpressure_case(rt: &tokio::runtime::Runtime, compressed: bool, n: usiz
 /// keep-alives mixed with TINY_NONE packets that carry a request id (not keep-alives) and does not read for a while; the client reads
 /// them all; the peer then drains what the client wrote.  Returns (keep-alives sent, keep-alives handed to the caller, reply messages
 /// the peer received, other binary messages the peer received).
-pub fn ws_keepalive_case(rt: &tokio::runtime::Runtime, compressed: bool, n: usize) -> (usize, usize, usize, usize) {
+pub fn ws_keepalive_case(rt: &tokio::runtime::Runtime, compressed: bool, n: usize) -> (usize, usize, usize, usize) { ws_keepalive_case_with(rt, compressed, n, None) }
+/// cancel_us = Some(t): the caller wraps every read() in its own timeout of t microseconds, dropping the future whenever it fires (C19)
+pub fn ws_keepalive_case_with(rt: &tokio::runtime::Runtime, compressed: bool, n: usize, cancel_us: Option<u64>) -> (usize, usize, usize, usize) {
     rt.block_on(async {
         let lsock = tokio::net::TcpSocket::new_v4().unwrap();
         let _ = lsock.set_recv_buffer_size(4096); let _ = lsock.set_send_buffer_size(4096);
@@ -290,7 +292,11 @@ pub fn ws_keepalive_case(rt: &tokio::runtime::Runtime, compressed: bool, n: usiz
         let (ws, _) = tokio_tungstenite::client_async("ws://127.0.0.1/connect", MaybeTlsStream::Plain(tcp)).await.unwrap();
         let mut f = AFramed::new(Box::new(WebsocketStream::from(ws)), Codec::new(mode_of(compressed)));
         let mut handed = 0usize;
-        loop { match tokio::time::timeout(Duration::from_secs(4), f.read()).await { Ok(Ok(p)) => { if p.maybe_pong().is_some() { handed += 1; } }, _ => break } }
+        match cancel_us {
+            None => loop { match tokio::time::timeout(Duration::from_secs(4), f.read()).await { Ok(Ok(p)) => { if p.maybe_pong().is_some() { handed += 1; } }, _ => break } },
+            Some(us) => { let mut last = std::time::Instant::now();
+                loop { match tokio::time::timeout(Duration::from_micros(us), f.read()).await { Ok(Ok(p)) => { last = std::time::Instant::now(); if p.maybe_pong().is_some() { handed += 1; } }, Ok(Err(_)) => break, Err(_) => { if last.elapsed() > Duration::from_secs(4) { break; } } } } },
+        }
         drop(f);
         let (sent, replies, others) = server.await.unwrap_or((0, 0, 0));
         let _ = ka; let _ = other;
